@@ -7,7 +7,7 @@ evaluated on both; the result on H' is mapped back through nu^-1 / eps^-1 (matri
 the index maps returned with index=True) and must equal the result on H.
 
 Violation keys: "<measure>|<aspect of the transformation>|<clause>" with
-  aspect in node-labels-{permuted,gapped,strings} | edge-ids-{permuted,gapped,strings} |
+  aspect in node-labels-<kind> | edge-ids-<kind>  (kind in permuted, gapped, strings, mixed, bigints, floats, numpy, rtstrings, tuples) |
             node-order | edge-order | member-order | combined(..)
   clause in value-differs | one-sided-exception | exception-differs.
 When several aspects were applied at once, the failing call is re-executed on restricted
@@ -37,9 +37,9 @@ ANCHORS = (
 )
 TECHNIQUE = "runtime monitoring: metamorphic two-execution monitor (relabelled / re-ordered construction of the same hypergraph)"
 RULE = (
-    "case = one seeded base hypergraph (<= 8 nodes, <= 10 edges of size 1-5; flavours random / uniform / covered / simplicial, with isolated nodes, "
-    "singletons, multi-edges, nested edges, optional edge weights) + one transformation (node bijection: permutation | gapped/negative ints | strings; "
-    "edge-ID bijection: permutation of 0..m-1 | gapped ints | strings; shuffled node / edge / member insertion order; case kinds apply them combined or "
+    "case = one seeded base hypergraph (<= 8 nodes, <= 10 edges of size 1-5; flavours random / uniform / covered / simplicial / graph / twins (two non-adjacent nodes with equal neighbourhoods), with isolated nodes, "
+    "singletons, multi-edges, nested edges, optional edge weights) + one transformation (node bijection / edge-ID bijection, each of 9 label kinds: permutation | gapped ints | strings | mixed int+str | "
+    "big ints | floats | numpy ints | run-time strings | tuples; every label occurrence a fresh equal object; shuffled node / edge / member insertion order; case kinds apply them combined or "
     "one aspect at a time). one evaluation = one measure call executed on both networks and compared after mapping back. "
     "distinct_nontrivial = distinct (base edge list, transformation) with >= 1 edge and a non-identity transformation"
 )
@@ -48,7 +48,10 @@ ASSUMPTIONS = [
     "numbers are compared with |a-b| <= 1e-9 * max(1, |a|, |b|) (all compared quantities are O(1)-O(100); exact cancellations such as Laplacian entries or correlation coefficients may differ in the last ulp under a different summation order); NaN == NaN, inf == inf",
     "results that are dicts are compared as mappings (iteration order of a result legitimately follows insertion order); components as a set of sets; largest_connected_component by size only (ties are broken by order); duplicates() by {member set: number of IDs returned} because *which* ID of a class is kept depends on the labels",
     "both sides raising the same exception type is not a mismatch (counted as both-raised:<measure>); one side only, or two different types, is",
-    "node labels inside one network are of one type (never mixed str / int); no empty edges; inputs whose construction already violates the C01 invariant are discarded and counted",
+    "label kinds for nodes and for edge IDs (chosen by case index): permutation of the same ints | gapped/negative ints | strings | mixed ints and strings in one network | ints >= 1000 / 2**33 / negative (outside CPython's small-int cache) | floats (integral and non-integral) | numpy.int64 | strings built at run time (not interned) | tuples of ints. Every occurrence of a label in the construction of the relabelled network and in arguments is a separately created equal object (fresh()); both networks are built with add_node / add_edge only, never a bulk call",
+    "measure x label-kind support was determined empirically on the unchanged tree: everything in the catalogue supports every kind except the eight simpliciality measures (5 functions + 3 local_* stats) with mixed int/str node labels - their Trie sorts the members of an edge, so unorderable labels raise TypeError while the int-labelled base returns a value; those (measure, kind) pairs are skipped and counted (skipped-unsupported:*) (property mechanism: 'label-order independent for orderable labels')",
+    "not in the catalogue, with reason: degree_assortativity(exact=False), h_/uniform_h_eigenvector_centrality (random start vector / sampling, C17 owns seeds); clique_ and z_eigenvector_centrality (ARPACK eigsh from a random start, converged only to tol); line_vector_centrality (documents that nodes must be 0..n-1: label dependent by contract); nodestats.attrs (not structural); argmax/argmin/argsort of stats (ties broken by order). node_edge_centrality is deterministic and included with tolerance 1e-6 (its stopping tolerance)",
+    "no empty edges; inputs whose construction already violates the C01 invariant are discarded and counted",
     "matrix functions that return an index map shorter than the matrix (n x n zero matrix with {} when no edge has the requested order) are compared positionally in H.nodes order; counted as index-map-incomplete",
 ]
 CASE_TIMEOUT = 120
@@ -179,9 +182,9 @@ def floors(tier):
     # every floor is <= half of what the smallest observed run delivers (kinds are assigned by case index, so the
     # counts hardly depend on the seed)
     f = {f"cmp:{m}": (160 if q else 28000) for m in MEASURES}
-    f.update({f"value:{m}": (50 if q else 8000) for m in VALUE_FLOOR})
-    f.update({f"nkind:{k}": (11 if q else 2000) for k in NODE_KINDS})
-    f.update({f"ekind:{k}": (11 if q else 2000) for k in EDGE_KINDS})
+    f.update({f"value:{m}": (40 if q else 7000) for m in VALUE_FLOOR})
+    f.update({f"nkind:{k}": (10 if q else 1900) for k in NODE_KINDS})
+    f.update({f"ekind:{k}": (10 if q else 1900) for k in EDGE_KINDS})
     f.update({f"aspect:{a}": (70 if q else 12000) for a in ASPECTS})
     f["cases-compared"] = 180 if q else 30000
     f["seq:evaluations-after-edit"] = 2000 if q else 300000
@@ -210,8 +213,29 @@ def _rand_edge(rng, n, edges):
 
 def gen_base(rng):
     """-> (flavour, n, edges[list of member lists], attrs[list of dicts])"""
-    flavour = rng.choice(("random", "random", "random", "uniform", "covered", "simplicial", "graph"))
-    if flavour == "uniform":
+    flavour = rng.choice(("random", "random", "random", "uniform", "covered", "simplicial", "graph", "twins"))
+    if flavour == "twins":
+        # two non-adjacent nodes u, v with the same neighbourhood A but different local structure (faces only through u):
+        # anything keyed by a neighbourhood / member set instead of the node shows up as an order dependence
+        n = rng.randint(4, 8)
+        perm = rng.sample(range(n), n)
+        u, v, rest = perm[0], perm[1], perm[2:]
+        if rng.random() < 0.6:  # {a, b, u} with all its faces (a simplex), {a, b, v} without the faces through v
+            A = rest[:2]
+            edges = [A + [u], A + [v], list(A), [A[0], u], [A[1], u]]
+            if rng.random() < 0.4:
+                edges.append([A[rng.randrange(2)], v])
+        else:
+            A = rest[: rng.randint(2, min(3, len(rest)))]
+            edges = [A + [u], A + [v]]
+            for _ in range(rng.randint(1, 3)):
+                edges.append(rng.sample(A, rng.randint(1, len(A) - 1)) + [u])
+            if rng.random() < 0.5:
+                edges.append(list(A))
+        for _ in range(rng.randint(0, 3)):
+            edges.append(rng.sample(rest, min(len(rest), rng.randint(1, 3))))
+        rng.shuffle(edges)
+    elif flavour == "uniform":
         k = rng.choice((2, 2, 3, 3, 4))
         n = rng.randint(k, 8)
         m = rng.randint(1, 10)
